@@ -122,16 +122,18 @@ structure SameClock (a b : Engine) : Prop where
   cfg : a.cfg = b.cfg
   nextOpId : a.nextOpId = b.nextOpId
   pendingWrite : a.pendingWrite = b.pendingWrite
+  outBytes : a.outBytes = b.outBytes
+  outEvents : a.outEvents = b.outEvents
 
-theorem SameClock.refl (a : Engine) : SameClock a a := ⟨rfl, rfl, rfl, rfl, rfl, rfl, rfl, rfl, rfl⟩
+theorem SameClock.refl (a : Engine) : SameClock a a := ⟨rfl, rfl, rfl, rfl, rfl, rfl, rfl, rfl, rfl, rfl, rfl⟩
 
 theorem SameClock.trans {a b c : Engine} (h1 : SameClock a b) (h2 : SameClock b c) : SameClock a c :=
   ⟨h1.timeouts.trans h2.timeouts, h1.now.trans h2.now, h1.current.trans h2.current, h1.highQ.trans h2.highQ,
    h1.userQ.trans h2.userQ, h1.resubQ.trans h2.resubQ, h1.cfg.trans h2.cfg, h1.nextOpId.trans h2.nextOpId,
-   h1.pendingWrite.trans h2.pendingWrite⟩
+   h1.pendingWrite.trans h2.pendingWrite, h1.outBytes.trans h2.outBytes, h1.outEvents.trans h2.outEvents⟩
 
 theorem releaseIds_same (e : Engine) (o : Op) : SameClock (e.releaseIds o) e := by
-  unfold Engine.releaseIds; split <;> exact ⟨rfl, rfl, rfl, rfl, rfl, rfl, rfl, rfl, rfl⟩
+  unfold Engine.releaseIds; split <;> exact ⟨rfl, rfl, rfl, rfl, rfl, rfl, rfl, rfl, rfl, rfl, rfl⟩
 
 theorem releaseIds_ops (e : Engine) (o : Op) : (e.releaseIds o).ops = e.ops ∧ (e.releaseIds o).outComps = e.outComps ∧ (e.releaseIds o).state = e.state := by
   unfold Engine.releaseIds; split <;> simp
@@ -147,7 +149,7 @@ theorem applyAckable_same (e : Engine) (o : Op) (e3 : Engine) (h : e.applyAckabl
     · split at h
       · cases h; exact ⟨SameClock.refl _, rfl, rfl, rfl, rfl, rfl, rfl⟩
       · split at h
-        · cases h; exact ⟨⟨rfl, rfl, rfl, rfl, rfl, rfl, rfl, rfl, rfl⟩, rfl, rfl, rfl, rfl, rfl, rfl⟩
+        · cases h; exact ⟨⟨rfl, rfl, rfl, rfl, rfl, rfl, rfl, rfl, rfl, rfl, rfl⟩, rfl, rfl, rfl, rfl, rfl, rfl⟩
         · cases h
 
 theorem applyDisconnectCompletion_same (e : Engine) (o : Op) :
@@ -156,7 +158,7 @@ theorem applyDisconnectCompletion_same (e : Engine) (o : Op) :
     (e.applyDisconnectCompletion o).1.pendingPub = e.pendingPub ∧ (e.applyDisconnectCompletion o).1.pendingNonPub = e.pendingNonPub := by
   unfold Engine.applyDisconnectCompletion
   split
-  · split <;> exact ⟨⟨rfl, rfl, rfl, rfl, rfl, rfl, rfl, rfl, rfl⟩, rfl, rfl, rfl, rfl, rfl⟩
+  · split <;> exact ⟨⟨rfl, rfl, rfl, rfl, rfl, rfl, rfl, rfl, rfl, rfl, rfl⟩, rfl, rfl, rfl, rfl, rfl⟩
   · exact ⟨SameClock.refl _, rfl, rfl, rfl, rfl, rfl⟩
 
 /-- the ping extension only ever changes the next-ping time -/
@@ -180,7 +182,7 @@ theorem completeFailure_same (e : Engine) (id : Nat) (k : String) : SameClock (e
   | none => exact SameClock.refl _
   | some o =>
     simp only []
-    have h1 : SameClock ({ e with ops := mapErase e.ops id } : Engine) e := ⟨rfl, rfl, rfl, rfl, rfl, rfl, rfl, rfl, rfl⟩
+    have h1 : SameClock ({ e with ops := mapErase e.ops id } : Engine) e := ⟨rfl, rfl, rfl, rfl, rfl, rfl, rfl, rfl, rfl, rfl, rfl⟩
     have h2 := (releaseIds_same { e with ops := mapErase e.ops id } o).trans h1
     cases hA : ({ e with ops := mapErase e.ops id } : Engine).releaseIds o |>.applyAckable o with
     | none => exact h2
@@ -192,7 +194,7 @@ theorem completeFailure_same (e : Engine) (id : Nat) (k : String) : SameClock (e
       · exact h4
       · split
         · exact h4
-        · exact ⟨h4.timeouts, h4.now, h4.current, h4.highQ, h4.userQ, h4.resubQ, h4.cfg, h4.nextOpId, h4.pendingWrite⟩
+        · exact ⟨h4.timeouts, h4.now, h4.current, h4.highQ, h4.userQ, h4.resubQ, h4.cfg, h4.nextOpId, h4.pendingWrite, h4.outBytes, h4.outEvents⟩
 
 /-! ### insertion sort used for `sort_operation_deque` -/
 
